@@ -346,7 +346,7 @@ Fixpoint idgen_script (suffix : bytes) (i : nat) (g : idgen) (zs : list Z) : lis
                    g_seq := if sv <? 0 then g_seq g else sv |} in
       let (g1, id) := generate_id suffix now g0 in
       let canon :=
-        if bytes_eqb (firstn 19 id) (fixed_dec 19 (Z.to_N now)) then 84%N :: skipn 19 id
+        if bytes_eqb (firstn 19 id) (dec_lsb 19 (Z.to_N now) []) then 84%N :: skipn 19 id
         else [66; 65; 68]%N ++ hex id in
       let ecls := if g_epoch g1 =? now then 110%N else if g_epoch g1 =? max_int64 then 102%N else 63%N in
       (canon ++ dot :: ecls :: dot :: dec_of_Z (g_seq g1)) :: idgen_script suffix (S i) g1 zs'
